@@ -53,8 +53,8 @@ PROPS = {
                  "(incl. 300-iteration log and 150000-iteration power series)",
  },
  "C14": {
-  "modules": ["OsmoVerif.Props.C14", "OsmoVerif.Props.C14Mono", "OsmoVerif.Props.C14RoundTrip"],
-  "min_theorems": 38,
+  "modules": ["OsmoVerif.Props.C14", "OsmoVerif.Props.C14Mono", "OsmoVerif.Props.C14RoundTrip", "OsmoVerif.Props.TieGenCLTick", "OsmoVerif.Props.TieGenCLTickOps"],
+  "min_theorems": 47,
   "fingerprints": ["CL.*"],
   "engines": [{"name": "tick", "kind": "pure", "n": {"quick": 60000, "thorough": 400000}, "shards": {"quick": 4, "thorough": 4},
                "env": {"thorough": {"VERIF_TICK_SWEEP": "1", "VERIF_TICK_SWEEP_STRIDE": "61"}}}],
@@ -160,8 +160,8 @@ PROPS = {
                  "empty-claimed positions disappear; unknown-position / non-positive-change calls and every error are no-ops. Model tied to the Go code by byte-exact differential run.",
  },
  "C08": {
-  "modules": ["OsmoVerif.Props.C08", "OsmoVerif.Props.C08Inc", "OsmoVerif.Props.C08IncHist", "OsmoVerif.Props.TieGenCL", "OsmoVerif.Props.TieGenCLOps"],
-  "min_theorems": 161,
+  "modules": ["OsmoVerif.Props.C08", "OsmoVerif.Props.C08Inc", "OsmoVerif.Props.C08IncHist", "OsmoVerif.Props.TieGenCL", "OsmoVerif.Props.TieGenCLOps", "OsmoVerif.Props.TieGenCLTick"],
+  "min_theorems": 164,
   "fingerprints": ["CL.Keeper_*", "CL.SwapState_*"],
   "engines": [{"name": "clmath", "kind": "pure", "n": {"quick": 30000, "thorough": 400000}, "shards": {"quick": 2, "thorough": 16}},
               {"name": "cl", "kind": "app", "n": {"quick": 1500, "thorough": 20000}, "shards": {"quick": 4, "thorough": 16}, "env": NO_EXPORT_IMPORT}],
@@ -274,8 +274,8 @@ PROPS = {
                  "decreases); CL shares never reach an account; failed op is a no-op; model tied to the real msg server/keeper by differential run",
  },
  "C03": {
-  "modules": ["OsmoVerif.Props.C03", "OsmoVerif.Props.C03Limit", "OsmoVerif.Props.C03Dust", "OsmoVerif.Props.C03Ideal", "OsmoVerif.Props.TieGenCL", "OsmoVerif.Props.TieGenCLOps"],
-  "min_theorems": 172,
+  "modules": ["OsmoVerif.Props.C03", "OsmoVerif.Props.C03Limit", "OsmoVerif.Props.C03Dust", "OsmoVerif.Props.C03Ideal", "OsmoVerif.Props.TieGenCL", "OsmoVerif.Props.TieGenCLOps", "OsmoVerif.Props.TieGenCLTick"],
+  "min_theorems": 175,
   "fingerprints": ["CL.*"],
   "engines": [{"name": "clmath", "kind": "pure", "n": {"quick": 40000, "thorough": 500000}, "shards": {"quick": 4, "thorough": 16}},
               {"name": "cl", "kind": "app", "n": {"quick": 1500, "thorough": 20000}, "shards": {"quick": 4, "thorough": 16}, "env": NO_EXPORT_IMPORT}],
@@ -316,8 +316,8 @@ PROPS = {
                  "(inside the contract), exact per-hop accounting of trader / pool / taker-fee collector, third parties untouched",
  },
  "C07": {
-  "modules": ["OsmoVerif.Props.C07", "OsmoVerif.Props.TieGenCL", "OsmoVerif.Props.TieGenCLOps"],
-  "min_theorems": 90,
+  "modules": ["OsmoVerif.Props.C07", "OsmoVerif.Props.TieGenCL", "OsmoVerif.Props.TieGenCLOps", "OsmoVerif.Props.TieGenCLTick"],
+  "min_theorems": 93,
   "fingerprints": ["CL.*"],
   "engines": [{"name": "cl", "kind": "app", "n": {"quick": 2000, "thorough": 30000}, "shards": {"quick": 4, "thorough": 16}, "env": NO_EXPORT_IMPORT}],
   "rule": "histories on one concentrated pool through the real keeper (create over overlapping/nested/abutting/gapped ranges incl. exactly on the current tick and at the range "
@@ -592,8 +592,8 @@ PROPS = {
                  "invariants, remaining history; probes for the audited order-dependent sites.",
  },
  "C01": {
-  "modules": ["OsmoVerif.Props.C01", "OsmoVerif.Props.C08IncHist", "OsmoVerif.Props.TieGenCL", "OsmoVerif.Props.TieGenCLOps"],
-  "min_theorems": 131,
+  "modules": ["OsmoVerif.Props.C01", "OsmoVerif.Props.C08IncHist", "OsmoVerif.Props.TieGenCL", "OsmoVerif.Props.TieGenCLOps", "OsmoVerif.Props.TieGenCLTick"],
+  "min_theorems": 134,
   "fingerprints": ["CL.*"],
   "engines": [{"name": "cl", "kind": "app", "n": {"quick": 2000, "thorough": 30000}, "shards": {"quick": 4, "thorough": 16}, "env": NO_EXPORT_IMPORT},
               {"name": "clmath", "kind": "pure", "n": {"quick": 20000, "thorough": 300000}, "shards": {"quick": 2, "thorough": 16}}],
